@@ -496,6 +496,17 @@ def gen_ops(rng: random.Random, case, n_ops: int, invalid_rate: float, query_rat
             if rng.random() < invalid_rate * 0.6:
                 chs = rng.choice([chs[:1], chs + chs[:1], chs + ["zz"]])
             emit(dict(op="align", channels=chs, at_rest=rng.random() < 0.6))
+        elif kind == "phase" and rng.random() < (0.3 if focus in ("phase", "conflict") else 0.12) and any(
+                len({float(r.phase.last_phase) for r in d.values()}) > 1 for d in live.seq._basis_ref.values()):
+            # equalise: bring every atom of a basis back to ONE reference (so that multi-target pulses
+            # are accepted again) - the atoms then have equal references last shifted at DIFFERENT times
+            b = rng.choice([b_ for b_, d in live.seq._basis_ref.items() if len({float(r.phase.last_phase) for r in d.values()}) > 1])
+            d = live.seq._basis_ref[b]
+            goal = float(next(iter(d.values())).phase.last_phase)
+            for q in list(d):
+                cur_ = float(live.seq._basis_ref[b][q].phase.last_phase)
+                if cur_ != goal and len(ops) < n_ops + 4:
+                    emit(dict(op="phase_shift", phi=goal - cur_, targets=[q], basis=b))
         elif kind == "phase":
             bases = list(live.seq._basis_ref) or ["digital"]
             basis = rng.choice(bases) if rng.random() > 0.08 else rng.choice(["digital", "ground-rydberg", "XY"])
